@@ -146,6 +146,15 @@ function runRegexMatrix(c) {
   return { rows: rows };
 }
 
+function runParseBatch(c) {
+  // c.srcs: [source...] -> per source 'ok' (compiles as a strict script) | error name. Nothing is executed.
+  const out = [];
+  for (const src of c.srcs) {
+    try { new vm.Script("'use strict'; " + src); out.push('ok'); } catch (ex) { out.push(String(ex && ex.name)); }
+  }
+  return { res: out };
+}
+
 const rl = readline.createInterface({ input: process.stdin, terminal: false, crlfDelay: Infinity });
 rl.on('line', function (line) {
   let msg;
@@ -156,6 +165,7 @@ rl.on('line', function (line) {
       if (c.kind === 'exprs') results.push(runExprBatch(c));
       else if (c.kind === 'regex') results.push(runRegexBatch(c));
       else if (c.kind === 'rxmatrix') results.push(runRegexMatrix(c));
+      else if (c.kind === 'parse') results.push(runParseBatch(c));
       else results.push(runCase(c));
     } catch (e) {
       results.push({ oracle_error: String(e) });
